@@ -112,7 +112,9 @@ class TempfileMktempTransformer(
         arg_keys = ("suffix", "prefix", "dir")
         for idx, arg in enumerate(node.args):
             cst.ensure_type(val := arg.value, cst.SimpleString)
-            new_args += f'{arg_keys[idx]}="{clean_simplestring(val)}", '
+            # a keyword argument keeps its own name, whatever its position
+            key = arg.keyword.value if arg.keyword else arg_keys[idx]
+            new_args += f'{key}="{clean_simplestring(val)}", '
         return f"{new_args}{default}"
 
     def _is_assigned_to_mktemp(
